@@ -48,8 +48,22 @@ def arc(size, keys, vals, **kw):
                 tc=dict(Size=size), cfg={'size': size}, keys=keys, **kw)
 
 
-def wt(w, a, b, samples, keys, vals, mode='abs', **kw):
-    return dict(name='wtlfu-%d-%d-%d-s%d-k%d-v%d-%s' % (w, a, b, samples, keys, len(vals), mode),
+GOLD = 0x9E3779B97F4A7C15
+
+
+def colliding_table(keys, width=4):
+    """hashes for keys 1..n where keys 1 and 2 share their sketch cells (equal low bits), the others do not"""
+    t = [0]
+    for i in range(1, keys + 1):
+        hi = (i * GOLD) & 0xFFFFFFFFFFFFFFFF & ~(width - 1)
+        t.append(hi | (0 if i <= 2 else (i - 2) % width))
+    return t
+
+
+def wt(w, a, b, samples, keys, vals, mode='abs', collide=False, **kw):
+    if collide:
+        kw['khtable'] = colliding_table(keys)
+    return dict(name='wtlfu-%d-%d-%d-s%d-k%d-v%d-%s%s' % (w, a, b, samples, keys, len(vals), mode, '-coll' if collide else ''),
                 mc=dict(W=w, A=a, B=b, Samples=samples, Mode=mode, Keys=K(keys), Vals=set(vals)),
                 tc=dict(W=w, A=a, B=b), cfg={'w': w, 'a': a, 'b': b, 'samples': samples}, keys=keys, **kw)
 
@@ -86,10 +100,11 @@ INSTANCES = {
                      arc(3, 5, [1], random=(300, 200), max_states=12000)],
     },
     'wtlfu': {
-        'quick': [wt(1, 1, 1, 6, 4, [1], random=(20, 80))],
+        'quick': [wt(1, 1, 1, 6, 4, [1], random=(20, 80)),
+                  wt(1, 1, 1, 6, 4, [1], collide=True, random=(20, 80), max_states=1200)],
         'thorough': [wt(1, 1, 1, 6, 4, [1, 2], random=(100, 150), max_states=15000), wt(1, 2, 1, 8, 4, [1], random=(100, 150), max_states=12000),
                      wt(2, 1, 1, 8, 4, [1], random=(100, 150), max_states=12000), wt(1, 1, 2, 8, 4, [1], random=(100, 150), max_states=12000),
-                     wt(1, 1, 1, 3, 4, [1]), wt(2, 2, 2, 10, 5, [1], mode='both', random=(200, 250), max_states=30000)],
+                     wt(1, 1, 1, 3, 4, [1]), wt(1, 1, 1, 6, 4, [1], collide=True, random=(100, 150)), wt(2, 2, 2, 10, 5, [1], mode='both', random=(200, 250), max_states=30000)],
     },
 }
 
